@@ -81,8 +81,9 @@ impl<'de> Read for SliceRead<'de> {
 		I: VarInt,
 	{
 		match I::decode_var(self.slice) {
-			None => Err(DeError::new(
+			None => Err(DeError::custom_io(
 				"All bytes have MSB set when decoding varint (Reached EOF)",
+				std::io::ErrorKind::UnexpectedEof.into(),
 			)),
 			Some((val, read)) => {
 				self.slice = &self.slice[read..];
